@@ -143,6 +143,12 @@ def runDict (c : Case) (m : DictModel) (emit : Nat → String → IO Unit) : IO 
         | some l => emit k s!"T {joinStrs (l.filterMap id)}"
         | none => emit k "T ?"
     | ["tabs"] => emit k s!"T {if m.hasTable then joinStrs (sortStrs S) else "-"}"
+    | ["tabh"] =>
+      if !m.hasTable then emit k s!"TH 0 {hex16 fnvInit}"
+      else emit k s!"TH {S.length} {hex16 (S.foldl (fun h x => fnvStep (fnvBytes h x) 0) fnvInit)}"
+    | ["xph", h] =>
+      let l := if m.hasPrefix then (Spec.prefixIds S (unhex h)).filterMap (Spec.extract S) else []
+      emit k s!"XH {l.length} {hex16 (l.foldl (fun h x => fnvStep (fnvBytes h x) 0) fnvInit)}"
     | ["tabx"] => emit k (if m.hasTable then s!"TX {m.numElements} bad=0" else "TX 0 bad=0")
     | ["meta"] =>
       -- the model's own value must satisfy the same bound the harness checks on the real object
